@@ -25,7 +25,7 @@ TECH = {
     "C13": "RF-DOM debounce-condition dominance (structural branch atoms) on every announcement/reset site + RF-CORR must-pass-through re-arm/clear of the debounce state",
     "C14": "RF-PAIR path-sensitive typestate (TZ change/restore) + RF-WHO who-may-call + RF-DEP save-before-set",
     "C15": "RF-DEP flags provenance + RF-INIT constructor completeness + RF-DOM CRC/Hamming dominance + RF-NEG decode-error taint (stores, shifts, unexamined results) + RF-IVL intervals with loop trip-count caps + RF-CORR tracker update + RF-PURE",
-    "C16": "RF-WHO export write layer + RF-DOM grow-before-store",
+    "C16": "RF-WHO single write layer (who-may-call over the call graph of the export modules) + RF-DOM grow-before-store, grow contract, strict vsnprintf acceptance, room-before-store in the text output, unsupported pixel format reaches no drawing call",
     "C17": "RF-TAB return-code/metacharacter table agreement + RF-IVL capacity",
     "C18": "RF-LOCK context-sensitive lockset over main loop and acquisition thread (queue_mutex, clnt_mutex), lock pairing and order + RF-DOM service filter / free-at-zero / subscriber dominance + RF-CORR mask rebuild + RF-PAIR drain-on-close",
     "C19": "RF-TAB message-type exhaustiveness and validated-length vs. read-member agreement + RF-TAINT/RF-IVL client fields to index/length/assert sinks (interval analysis, pointer-arithmetic subscripts) + RF-STATE token transitions with a path-sensitive grant-site typestate + RF-DOM error-closes and drain-before-update",
